@@ -494,6 +494,11 @@ fn table_cases(thorough: bool) -> Vec<TableCase> {
             if matches!(v.name, "int" | "uint" | "float" | "complex" | "angle") {
                 forms.push(("arithmetic".into(), format!("{vs} v; {vs} u;"), "v + u".into(), false));
                 forms.push(("arithmetic-mul".into(), format!("{vs} v; {vs} u;"), "(v * u)".into(), false));
+                // one constant operand does not make the value constant
+                if let Some(l) = &lit0 {
+                    forms.push(("arithmetic-const-left".into(), format!("const {vs} v = {l}; {vs} u;"), "(v * u)".into(), false));
+                    forms.push(("arithmetic-const-right".into(), format!("const {vs} v = {l}; {vs} u;"), "(u + v)".into(), false));
+                }
             }
             if matches!(v.name, "int" | "uint" | "float" | "complex" | "angle" | "bool" | "bit") && !(v.name == "bit" && v.w.is_some()) {
                 forms.push(("cast".into(), "int[32] w;".into(), format!("{vs}(w)"), true));
@@ -504,6 +509,10 @@ fn table_cases(thorough: bool) -> Vec<TableCase> {
                     None => format!("{vs} r; return r;"),
                 };
                 forms.push(("call".into(), format!("def f() -> {vs} {{ {ret} }}"), "f()".into(), true));
+            }
+            if matches!(v.name, "int" | "uint" | "float") {
+                // the value is the variable of an enclosing loop (a run-time value)
+                forms.push(("loop-variable".into(), String::new(), "v".into(), false));
             }
             if v.name == "bit" {
                 match v.w {
@@ -517,7 +526,7 @@ fn table_cases(thorough: bool) -> Vec<TableCase> {
                     // all is not this property's business, so a diagnostic is never "spurious" here;
                     // but the value-type clause and the always-diagnosed classes (narrowing of a
                     // non-constant value, downward kinds) apply to const targets as well
-                    let nonconst_into_const = konst && (fname == "variable" || fname.starts_with("arith") || fname == "measurement" || fname == "call");
+                    let nonconst_into_const = konst && (fname == "variable" || fname == "loop-variable" || fname.starts_with("arith") || fname == "measurement" || fname == "call");
                     let stmt = if is_decl {
                         format!("{}{ts} x = {expr};", if konst { "const " } else { "" })
                     } else {
@@ -525,7 +534,12 @@ fn table_cases(thorough: bool) -> Vec<TableCase> {
                         let e = if expr.contains(" + ") { format!("({expr})") } else { expr.clone() };
                         format!("{ts} x; x = {e};")
                     };
-                    let text = format!("{prelude}\n{stmt}");
+                    let text = if fname == "loop-variable" {
+                        let iter = if v.name == "float" { "{1.5, 2.5}" } else { "[0:3]" };
+                        format!("for {vs} v in {iter} {{ {stmt} }}")
+                    } else {
+                        format!("{prelude}\n{stmt}")
+                    };
                     let must = must_diagnose(t, v, &fname, value_const);
                     // a numeric literal has no written width: "same type" is only meaningful for the
                     // literal classes whose type is exact (bool, duration, bit string)
@@ -538,7 +552,7 @@ fn table_cases(thorough: bool) -> Vec<TableCase> {
                         (Some(a), Some(b)) if a > b => "w<-narrower",
                         _ => "w<-wider",
                     };
-                    if is_decl && !konst {
+                    if is_decl && !konst && fname != "loop-variable" {
                         // the same declaration when the name is already bound in this scope: it is
                         // reported as a redeclaration, and its initializer is judged all the same
                         out.push(TableCase {
@@ -598,8 +612,11 @@ fn check_table_case(tc: &TableCase, out: &mut Vec<Failure>) -> bool {
     check_typed_graph(&tc.text, &res, out);
     let (n_type_diags, kinds) = type_diag_count(&res);
     let detail = |e: String, a: String| json!({"input": {"source": tc.text}, "expected": e, "actual": a, "diagnostics": kinds});
-    // the last statement of the program
-    let last = res.program().stmts().last();
+    // the last statement of the program (of the loop body for the loop-variable form)
+    let last = match res.program().stmts().last() {
+        Some(asg::Stmt::ForStmt(f)) => f.loop_body().statements().last(),
+        other => other,
+    };
     let value: Option<&asg::TExpr> = match last {
         Some(asg::Stmt::DeclareClassical(d)) if tc.is_decl => d.initializer(),
         Some(asg::Stmt::Assignment(a)) if !tc.is_decl => Some(a.rvalue()),
@@ -843,6 +860,12 @@ fn shadow_forms(wsp: &str, w: u128) -> Vec<DeclCase> {
     push("two-levels:if-then-while", format!("const int n = {other};\nif (true) {{ const int n = {wsp}; while (false) {{ int[n] v; }} }}"), Type::Int(w32, IsConst::False));
     push("two-levels:for-then-if-then-if", format!("const int n = {other};\nfor int i in [0:1] {{ const int n = {wsp}; if (true) {{ if (true) {{ uint[n] v; }} }} }}"), Type::UInt(w32, IsConst::False));
     push("two-levels:gate-then-if", format!("const int n = {other};\ndef g() {{ if (true) {{ const int n = {wsp}; switch (1) {{ case 1 {{ float[n] v; }} }} }} }}"), Type::Float(w32, IsConst::False));
+    // a binding in one branch is not visible in its sibling
+    push("sibling:then-else", format!("{g}if (true) {{ const int n = {other}; }} else {{ bit[n] v; }}"), Type::BitArray(ArrayDims::D1(w as usize), IsConst::False));
+    push("sibling:then-else-single", format!("{g}if (true) {{ const int n = {other}; }} else int[n] v;"), Type::Int(w32, IsConst::False));
+    push("sibling:case-case", format!("{g}switch (1) {{ case 1 {{ const int n = {other}; }} case 2 {{ uint[n] v; }} }}"), Type::UInt(w32, IsConst::False));
+    push("sibling:case-default", format!("{g}switch (1) {{ case 1 {{ const int n = {other}; }} default {{ float[n] v; }} }}"), Type::Float(w32, IsConst::False));
+    push("sibling:else-if-chain", format!("{g}if (true) {{ const int n = {other}; }} else if (false) {{ const int n = 3; }} else {{ angle[n] v; }}"), Type::Angle(w32, IsConst::False));
     push("inner-while", format!("const int n = {other};\nwhile (false) {{ const int n = {wsp}; int[n] v; }}"), Type::Int(w32, IsConst::False));
     v
 }
